@@ -19,7 +19,7 @@ def load_corpus(name):
 
 
 def make_task(case, defaults):
-    t = {"key": case["id"], "kind": case.get("kind", defaults.get("kind", "stateless")), "builds": case.get("builds", defaults.get("builds", BUILDS2)), "modes": case.get("modes", defaults.get("modes", ["full", "min"]))}
+    t = {"key": case["id"], "kind": case.get("kind", defaults.get("kind", "stateless")), "builds": case.get("builds", case.get("params", {}).get("builds", defaults.get("builds", BUILDS2))), "modes": case.get("modes", defaults.get("modes", ["full", "min"]))}
     for k in ("stmts", "pairs", "outputs", "check_entities", "files", "main", "kernel", "op", "pair"):
         if k in case:
             t[k] = case[k]
